@@ -48,10 +48,16 @@ pub const MODES: [RoundSeconds; 4] = [
 pub struct Rng(pub u64);
 impl Rng {
     pub fn new(seed: u64, stream: u64, sub: u64) -> Self {
-        let mut r = Rng(seed
-            .wrapping_mul(0x9E3779B97F4A7C15)
-            .wrapping_add(stream.wrapping_mul(0xD1B54A32D192ED03))
-            .wrapping_add(sub.wrapping_mul(0x8CB92BA72F3D8DD7)));
+        // every component goes through the finaliser first: the generator's state advances by the golden-ratio
+        // constant, so a state that is LINEAR in the seed would make seed n+1 the same sequence shifted by one draw
+        fn mix(mut z: u64) -> u64 {
+            z = (z ^ (z >> 30)).wrapping_mul(0xBF58476D1CE4E5B9);
+            z = (z ^ (z >> 27)).wrapping_mul(0x94D049BB133111EB);
+            z ^ (z >> 31)
+        }
+        let mut r = Rng(mix(seed.wrapping_add(0x1234_5678_9ABC_DEF1))
+            .wrapping_add(mix(stream.wrapping_mul(0xD1B54A32D192ED03).wrapping_add(7)))
+            .wrapping_add(mix(sub.wrapping_mul(0x8CB92BA72F3D8DD7).wrapping_add(13))));
         r.next();
         r.next();
         r
